@@ -1055,3 +1055,94 @@ mod tests {
         world.insert(e2, Zst);
     }
 }
+
+// Verification hooks. Compiled only with `--cfg evenio_verif`.
+#[cfg(evenio_verif)]
+impl Archetypes {
+    pub(crate) fn verif_snapshot(&self) -> Vec<crate::verif::ArchSnapshot> {
+        self.archetypes
+            .iter()
+            .map(|(key, a)| crate::verif::ArchSnapshot {
+                slab_key: key as u32,
+                index: a.index.0,
+                components: a.component_indices().iter().map(|c| c.0).collect(),
+                entity_ids: a
+                    .entity_ids
+                    .iter()
+                    .map(|e| (e.index().0, e.generation()))
+                    .collect(),
+                capacity: a.entity_ids.capacity(),
+                column_ptrs: a
+                    .columns()
+                    .iter()
+                    .map(|c| c.data().as_ptr() as usize)
+                    .collect(),
+                column_aligns: a
+                    .columns()
+                    .iter()
+                    .map(|c| c.component_layout.align())
+                    .collect(),
+                insert_edges: a.insert_components.iter().map(|(c, i)| (c.0, i.0)).collect(),
+                remove_edges: a.remove_components.iter().map(|(c, i)| (c.0, i.0)).collect(),
+                refresh_listeners: {
+                    let mut v: Vec<_> = a
+                        .refresh_listeners
+                        .iter()
+                        .map(|p| {
+                            let id = p.verif_id();
+                            (id.index().0, id.generation())
+                        })
+                        .collect();
+                    v.sort_unstable();
+                    v
+                },
+                event_listeners: {
+                    let mut v: Vec<_> = a
+                        .event_listeners
+                        .keys()
+                        .iter()
+                        .zip(a.event_listeners.values())
+                        .map(|(k, l)| {
+                            let (before, after, ids) = l.verif_snapshot();
+                            (
+                                k.0,
+                                before,
+                                after,
+                                ids.into_iter()
+                                    .map(|id| (id.index().0, id.generation()))
+                                    .collect::<Vec<_>>(),
+                            )
+                        })
+                        .collect();
+                    v.sort_unstable();
+                    v
+                },
+            })
+            .collect()
+    }
+
+    pub(crate) fn verif_by_components(&self) -> Vec<(Vec<u32>, u32)> {
+        let mut v: Vec<_> = self
+            .by_components
+            .iter()
+            .map(|(k, v)| (k.iter().map(|c| c.0).collect::<Vec<_>>(), v.0))
+            .collect();
+        v.sort_unstable();
+        v
+    }
+
+    /// Overwrites the id stored in an archetype row.
+    pub(crate) fn verif_set_entity_id(&mut self, loc: EntityLocation, id: EntityId) -> bool {
+        match self
+            .archetypes
+            .get_mut(loc.archetype.0 as usize)
+            .and_then(|a| a.entity_ids.get_mut(loc.row.0 as usize))
+        {
+            Some(slot) => {
+                *slot = id;
+                true
+            }
+            None => false,
+        }
+    }
+}
